@@ -1,3 +1,4 @@
+import BycycleModel.Routing
 import Proofs.Plots
 /-!
 # C20 — plots draw the analysis they are given (index arithmetic; rendering is not modelled)
@@ -35,5 +36,9 @@ theorem C20_mask_complete (lo len : Nat) (bursts : List (Int × Int)) (hb : ∀ 
 /-- why the offset must be the first sample in view: one sample less (what `int(28.999…)` gives for
 0.29 s at 100 Hz) draws a marker for the peak at sample 40 at index 12 of a view starting at 29, i.e. at sample 41. -/
 theorem C20_truncation_counterexample : markerIdx 29 50 28 [40] = [12] ∧ markerIdx 29 50 29 [40] = [11] := by decide
+
+/-- the wiring of the plots read off the source: table and signal are limited to the SAME window, the summary keeps original sample indices
+(`reset_indices=False`) and hands the normalised signal, the rate and the window to its panels. -/
+theorem C20_routing : ∀ r ∈ Routing.plots, Routing.holds Slots.routes r = true := by decide +kernel
 
 end Bycycle
